@@ -474,6 +474,23 @@ func GenCase(r *hx.Rng, m Mode) *Case {
 			break
 		}
 	}
+	if m.MutationOnly {
+		// make sure the mutation root has list-of-object and object fields (deferred work below list items and
+		// objects is what the serial-execution rule is about), next to whatever the generator chose
+		mt := s.Type(*s.Mutation)
+		var objs []string
+		for _, t := range s.Types {
+			if t.Kind == "OBJECT" && t.Name != s.Query && t.Name != *s.Mutation {
+				objs = append(objs, t.Name)
+			}
+		}
+		if len(objs) > 0 {
+			mt.Fields = append(mt.Fields,
+				gq.FieldDesc{Name: "ml0", Type: "[" + objs[r.Intn(len(objs))] + "]"},
+				gq.FieldDesc{Name: "ml1", Type: "[[" + objs[r.Intn(len(objs))] + "]]"},
+				gq.FieldDesc{Name: "mo0", Type: objs[r.Intn(len(objs))]})
+		}
+	}
 	opts := gen.ValidDocOpts{NoIntrospection: true}
 	text, meta := gen.ValidDocWith(r, s, r.Range(1, 5), opts)
 	c := &Case{Schema: s, Query: text, World: GenWorld(r, s, m.Knobs(r)), Vars: map[string]interface{}{}}
